@@ -205,7 +205,12 @@ class Ref:
         if c == HEXIT:
             if not self.ctx or self.ctx[0] != k:
                 return "d"
-            return ok_end()
+            r = ok_end()
+            if r:
+                return r
+            if not self.live(k) and self.kinds[k] and len(self.stack) > 1:
+                return "b"
+            return None
 
     def step(self, op):
         """returns None (no such handle) or raised:bool"""
